@@ -18,9 +18,11 @@ function allTypeSlots(prog) {
   return slots;
 }
 
-function mapAllTypes(prog, f) {
+// skipDecl: declarations to leave untouched (a type parameter of theirs shadows / would capture a name)
+function mapAllTypes(prog, f, skipDecl = null) {
   const p = clone(prog);
   p.decls = p.decls.map((d) => {
+    if (skipDecl && skipDecl(d)) return d;
     const m = mapDecl(d, f);
     // an `extends` clause only takes (possibly generic) names: keep entries that stopped being one
     if (m.d === "iface" && m.ext) m.ext = m.ext.map((e, i) => (e.k === "ref" ? e : d.ext[i]));
@@ -158,13 +160,23 @@ export const REWRITES = {
     if (!cands.length) return null;
     const d = rng.pick(cands);
     let n = 0;
-    const p = mapAllTypes(prog, (x) => {
-      if (x.k === "ref" && x.name === d.name && x.args.length === 0) {
-        n++;
-        return { k: "paren", t: clone(d.t) };
-      }
+    // names the body mentions: a declaration with a type parameter of that name would capture it
+    const free = new Set([d.name]);
+    mapType(d.t, (x) => {
+      if (x.k === "ref") free.add(x.name);
       return x;
     });
+    const p = mapAllTypes(
+      prog,
+      (x) => {
+        if (x.k === "ref" && x.name === d.name && x.args.length === 0) {
+          n++;
+          return { k: "paren", t: clone(d.t) };
+        }
+        return x;
+      },
+      (decl) => (decl.params || []).some((q) => free.has(q)),
+    );
     return n ? p : null;
   },
   renameDeclaration(prog, rng) {
@@ -172,7 +184,8 @@ export const REWRITES = {
     if (!cands.length) return null;
     const d = rng.pick(cands);
     const to = freshName(prog, rng.pick(["Aaa", "Zzz", "Mmm", "A_", "z"]));
-    const p = mapAllTypes(prog, (x) => (x.k === "ref" && x.name === d.name ? { ...x, name: to } : x));
+    // (inside a declaration that has a type parameter of this name, the name means the parameter)
+    const p = mapAllTypes(prog, (x) => (x.k === "ref" && x.name === d.name ? { ...x, name: to } : x), (decl) => (decl.params || []).includes(d.name));
     p.decls = p.decls.map((x) => (x.name === d.name ? { ...x, name: to } : x));
     return p;
   },
